@@ -15,6 +15,27 @@ from .world import MemMessage, Router, World, key
 S = 1_000_000
 
 
+class RecHeld(set):
+    """the broker's processing set: every entry and exit of a message is an event"""
+
+    def __init__(self, log) -> None:
+        super().__init__()
+        self._log = log
+
+    def add(self, m):
+        self._log.add("held_add", id=m.key.id_)
+        return super().add(m)
+
+    def remove(self, m):
+        self._log.add("held_remove", id=m.key.id_)
+        return super().remove(m)
+
+    def discard(self, m):
+        if m in self:
+            self._log.add("held_remove", id=m.key.id_)
+        return super().discard(m)
+
+
 class Probes:
     def __init__(self, log) -> None:
         self.log = log
@@ -50,10 +71,12 @@ async def run_scenario(sc: dict, loop) -> dict:
     """sc: limit, M (or None), queues [q..], jobs [{id, queue, dur(us), at(us, arrival offset; 0 = before start), fail}],
     stop_at (us, virtual offset at which SIGINT is sent; None = rely on M), graceful (s)."""
     from repid import BasicConverter
-    world = World(results=False, args=False)
+    world = World(results=any(j.get("result") for j in sc["jobs"]), args=False)
     log = world.log
     qs = sc["queues"]
     await world.declare(*[f"q{q}" for q in qs])
+    for q in qs:
+        world.mb.queues[f"q{q}"].processing = RecHeld(log)
     durs = {j["id"]: j for j in sc["jobs"]}
     running = {"n": 0, "max": 0}
 
@@ -72,14 +95,17 @@ async def run_scenario(sc: dict, loop) -> dict:
             running["n"] -= 1
             log.add("actor_end", jid=jid)
 
+    from datetime import timedelta
     router = Router()
     for q in qs:
-        router.actor(act, name=f"a{q}", queue=f"q{q}", converter=BasicConverter)
+        router.actor(act, name=f"a{q}", queue=f"q{q}", converter=BasicConverter,
+                     retry_policy=lambda retry_number=1: timedelta(seconds=sc.get("backoff_s", 3600)))
     t0 = CLOCK.now_us()
     params0 = {}
 
     def put(j):
-        p = mk_params(ts=CLOCK.now_us())
+        p = mk_params(ts=CLOCK.now_us(), max_amount=j.get("retries", 0), tried=j.get("tried", 0),
+                      result=(f"r{j['id']}", None) if j.get("result") else None, timeout_us=j.get("timeout", 600 * S))
         m = MemMessage(key(f"m{j['id']}", f"a{j['queue']}", f"q{j['queue']}"), '{"jid": %d}' % j["id"], p)
         params0[j["id"]] = m
         world.mb.queues[f"q{j['queue']}"].simple.put_nowait(m)
@@ -115,6 +141,19 @@ async def run_scenario(sc: dict, loop) -> dict:
             h()
 
     runner, err = None, None
+    it0 = loop.iteration
+    busy0 = len(loop.busy_iterations)
+    fired = {}
+    if sc.get("stop_iter") is not None:
+        def hook(lp):
+            if "t" not in fired and lp.iteration - it0 >= sc["stop_iter"]:
+                h = lp.signal_handlers.get(int(signal.SIGINT))
+                if h is not None:
+                    fired["t"] = CLOCK.now_us()
+                    fired["iter"] = lp.iteration - it0
+                    log.add("signal")
+                    h()
+        loop.step_hook = hook
     with Probes(log):
         arr = asyncio.ensure_future(arrivals())
         stp = asyncio.ensure_future(stopper())
@@ -129,7 +168,11 @@ async def run_scenario(sc: dict, loop) -> dict:
             t.cancel()
         await asyncio.gather(arr, stp, return_exceptions=True)
     loop.task_hook = None
-    out = {"err": err, "events": log.events, "t0": t0, "t_return": t_return, "max_running": running["max"],
+    loop.step_hook = None
+    # let whatever the run left behind (cancelled tasks giving their messages back) finish
+    for _ in range(50):
+        await asyncio.sleep(0)
+    out = {"busy": [i - it0 for i in loop.busy_iterations[busy0:]], "it0": it0, "t_stop": fired.get("t"), "stop_fired_at": fired.get("iter"),"err": err, "events": log.events, "t0": t0, "t_return": t_return, "max_running": running["max"],
            "starts": [e["jid"] for e in log.events if e["kind"] == "actor_start"],
            "ends": [e["jid"] for e in log.events if e["kind"] == "actor_end"], "world": world, "params0": params0}
     remaining = {}
@@ -139,7 +182,8 @@ async def run_scenario(sc: dict, loop) -> dict:
                         "dead": list(snap["dead"]), "delayed": [m for _, ms in snap["delayed"] for m in ms]}
     out["remaining"] = remaining
     if runner is not None:
-        out["label"] = {"sem": id(runner._limiter), "stop": id(runner.stop_consume_event), "processed": runner._tasks_processed,
+        out["label"] = {"sem": id(runner._limiter), "stop": id(runner.stop_consume_event), "cancel": id(runner.cancel_event),
+                        "processed": runner._tasks_processed,
                         "value": runner._limiter._value, "stop_set": runner.stop_consume_event.is_set(), "n_tasks": len(runner._tasks)}
     return out
 
@@ -222,3 +266,125 @@ def final_obs(sc: dict, r: dict) -> list[int]:
 def case_term(sc: dict, evs: list) -> str:
     mx = "None" if sc["M"] is None else f"(Some {sc['M']})"
     return f"({sc['limit']}, {mx}, {ct.zlist(sc['queues'])}, {ct.lst(evs)})"
+
+
+def to_shutdown_events(sc: dict, r: dict):
+    """Translate the log of a single-queue run into the events of Shutdown.v. Returns (terms, problems)."""
+    lab = r.get("label")
+    if lab is None:
+        return None, ["no runner object to label the events with"]
+    if len(sc["queues"]) != 1:
+        return None, ["more than one queue: the ownership model is about one consumer"]
+    KIND = {"ack": 1, "nack": 2, "requeue": 3}
+    evs, problems = [], []
+    loop_holds = None          # message delivered to the loop and not yet spawned / given back
+    has_task = set()           # messages with a live processing task
+    disposed = set()           # ... whose terminal effect happened
+    cancelled = set()
+    pending = {}               # message -> (kind of call in progress, effect already seen)
+    finishing = False
+    finish_emitted = False
+    loops = set()
+    for e in r["events"]:
+        k = e["kind"]
+        if k == "task_create" and e["qualname"] == "_Runner._run_consumer":
+            loops.add(e["vid"])
+        elif k == "consume":
+            loop_holds = int(e["id"][1:])
+            evs.append(f"(SDeliver {loop_holds})")
+        elif k == "task_create" and e["qualname"] == "_Runner._process_with_event":
+            mid = e["label"].get("key")
+            if mid is None:
+                problems.append("processing task without a message label")
+                continue
+            m = int(mid[1:])
+            has_task.add(m)
+            if loop_holds == m:
+                loop_holds = None
+            evs.append(f"(SSpawn {m})")
+        elif k == "task_cancel" and e["qualname"] == "_Runner._run_consumer":
+            if loop_holds is not None:
+                evs.append(f"(SLoopCancelled {loop_holds})")
+                loop_holds = None
+        elif k == "broker" and e["op"] in KIND:
+            m = int(e["id"][1:])
+            pending[m] = [e["op"], False]
+            evs.append(f"(SActorEnd {m} {KIND[e['op']]})")
+        elif k == "broker" and e["op"] == "reject":
+            m = int(e["id"][1:])
+            if m in has_task:
+                pending[m] = ["task_reject", False]
+                cancelled.add(m)
+                evs.append(f"(STaskCancel {m})")
+            else:
+                pending[m] = ["loop_reject", False]
+        elif k == "held_remove":
+            m = int(e["id"][1:])
+            p = pending.get(m)
+            if p is not None and not p[1]:
+                p[1] = True
+                if p[0] in KIND:
+                    disposed.add(m)
+                    evs.append(f"(SEffect {m})")
+                elif p[0] == "task_reject":
+                    has_task.discard(m)
+                    evs.append(f"(SRejectEffect {m})")
+                else:
+                    if loop_holds == m:
+                        loop_holds = None
+                    evs.append(f"(SLoopGiveBack {m})")
+            elif finishing:
+                if not finish_emitted:
+                    finish_emitted = True
+                    evs.append("SFinish")
+            else:
+                problems.append(f"message {m} left the processing set outside any call")
+        elif k == "broker_done" and e["op"] in ("ack", "nack", "requeue", "reject"):
+            m = int(e["id"][1:])
+            p = pending.pop(m, None)
+            if p is not None and not p[1]:
+                # the call found the message not held: its effect (nothing, or requeue's replacement) happened without a removal
+                if p[0] in KIND:
+                    disposed.add(m)
+                    evs.append(f"(SEffect {m})")
+                elif p[0] == "task_reject":
+                    has_task.discard(m)
+                    evs.append(f"(SRejectEffect {m})")
+                else:
+                    if loop_holds == m:
+                        loop_holds = None
+                    evs.append(f"(SLoopGiveBack {m})")
+        elif k == "task_done" and e["qualname"] == "_Runner._process_with_event":
+            mid = e["label"].get("key")
+            m = int(mid[1:]) if mid else None
+            if m in has_task and m in disposed and m not in cancelled:
+                has_task.discard(m)
+                evs.append(f"(STaskEnd {m})")
+        elif k == "event_set" and e["ev"] == lab["cancel"]:
+            evs.append("SCancel")
+        elif k == "consumer_finish":
+            finishing = True
+        elif k == "consumer_finish_done":
+            if not finish_emitted:
+                finish_emitted = True
+                evs.append("SFinish")
+            finishing = False
+    return evs, problems
+
+
+def shutdown_final_obs(sc: dict, r: dict) -> list[int]:
+    q = sc["queues"][0]
+    rem = r["remaining"][q]
+    ids = lambda part: sorted(int(m.key.id_[1:]) for m in rem[part])   # noqa: E731
+    present = set(ids("simple")) | set(ids("processing")) | set(ids("dead")) | set(ids("delayed"))
+    # gone from every container (an ack whose effect happened; a lost message would show up here too and the model disagrees)
+    acked = sorted({j["id"] for j in sc["jobs"] if j["id"] in r["params0"]} - present)
+
+    def enc(l):
+        return [len(l)] + list(l)
+    return [1] + enc(ids("simple")) + enc(ids("processing")) + enc(acked) + enc(ids("dead")) + enc(ids("delayed")) + [0, 0]
+
+
+def shutdown_case_term(sc: dict, evs: list) -> str:
+    msgs = [j["id"] for j in sc["jobs"]]
+    return f"({ct.zlist(msgs)}, {ct.lst(evs)})"
